@@ -69,7 +69,7 @@ func init() {
 	}
 	propSpecs["C12"] = &PropSpec{
 		ID: "C12",
-		Rule: "two kinds of runs. (a) aliasing: one writer and 1-4 reader tasks as in C06, entries on both sides of the 64 KiB pooled read buffer; every log returned by GetLog is checksummed at return and re-checksummed at the end of the run, after later reads (of this and other tasks, interleaved by the scheduler) recycled the pooled buffers; a concurrent GetLog that returns a log which was never stored at that index in ANY state of the history (assembled from a recycled buffer) is a violation of its own (whether a correct entry was returned at the right time is C06's question and not judged here). In half of all runs each ReadAt is followed by a second yield point (the bytes are in the caller's buffer, the caller has not looked at them yet). (b) codec identity: sequential programs on a directory created with the default or a custom codec ID (2^16, 2^16+1, 2^40, MaxUint64), with codec probes between operations and after a crash: Open with a different custom ID and with the default codec must be refused and leave nothing open or locked (real bolt flock probed with a timeout in a third of the runs), a reserved ID (1..65535) must be rejected before any storage call, the same codec must reopen and read back the model's entries. " +
+		Rule: "two kinds of runs. (a) aliasing: one writer and 1-4 reader tasks as in C06, entries on both sides of the 64 KiB pooled read buffer; every log returned by GetLog is checksummed at return and re-checksummed at the end of the run, after later reads (of this and other tasks, interleaved by the scheduler) recycled the pooled buffers; every second sequential GetLog and every odd-numbered reader decodes into one re-used raft.Log value and retains a shallow copy of the result, which must not change when a later read decodes into the same destination; a concurrent GetLog that returns a log which was never stored at that index in ANY state of the history (assembled from a recycled buffer) is a violation of its own (whether a correct entry was returned at the right time is C06's question and not judged here). In half of all runs each ReadAt is followed by a second yield point (the bytes are in the caller's buffer, the caller has not looked at them yet). (b) codec identity: sequential programs on a directory created with the default or a custom codec ID (2^16, 2^16+1, 2^40, MaxUint64), with codec probes between operations and after a crash: Open with a different custom ID and with the default codec must be refused and leave nothing open or locked (real bolt flock probed with a timeout in a third of the runs), a reserved ID (1..65535) must be rejected before any storage call, the same codec must reopen and read back the model's entries. " +
 			"By-product: every entry flowing through any run is compared field by field (generator biased to varint boundaries, all LogTypes incl. 255, nil vs empty slices, 64 KiB neighbourhood, zero time / zone offsets). The isolated Encode/Decode equality is a pure function and is not decided by simulation. " +
 			"Non-trivial = a read overlapped a write (a) or a codec probe ran (b); distinct = interleaving hashes / op-sequence signatures.",
 		Components:     compA + "; a third of the codec-identity runs use the real metadb.BoltMetaDB + bbolt on tmpfs",
